@@ -12,6 +12,7 @@ class Ty:
 
 Int, Real, Bool = Ty("int"), Ty("real"), Ty("bool")
 Float = Ty("float")    # a Python float that may be NaN (datatype nan | fin(real)); plain Real is used where NaN is impossible
+Str = Ty("str")        # an opaque string (only len / find / rfind have integer contracts)
 Obj = Ty("obj")      # an opaque object (e.g. `self` of a method that does not use it)
 
 
@@ -52,7 +53,8 @@ class Contract:
                  returns=None, raises=None, call_ghost=None, gen=None, notes="", obligations_for=None,
                  assumed=None, after_loop=None, hints=None, rt_only=None, ghost_vars=None, ghost_after=None,
                  exit_hints=None, vec_counts=None, after_assign=None, abstract_mul=False, entry_hints=None,
-                 unroll=None, fields=None, fixed=None, fragment=None, call_hints=None, focus=None):
+                 unroll=None, fields=None, fixed=None, fragment=None, call_hints=None, focus=None, may_raise=None):
+        self.may_raise = list(may_raise or [])      # exceptions the function may raise (no condition is specified)
         # focus: {substring of an obligation name: [spec names]} extra spec families kept by the relevance filter of
         # the first (cheap) solver attempt; purely a performance hint (all hypotheses are used on the second attempt)
         self.focus = dict(focus or {})
